@@ -94,7 +94,22 @@ type ledger struct {
 	h    *hub
 	name string
 	fail bool
+	kind int // which error a failing sub-call returns
 	want any // pointer identity of the request's state to check argument pass-through
+}
+
+// failure returns the error of a failing sub-call: a sub-call may fail with any error, including
+// ones that look like the caller's own context errors.
+func (l *ledger) failure() error {
+	switch l.kind % 4 {
+	case 1:
+		return fmt.Errorf("ledger %s: waiting for the peers' deposits: %w", l.name, context.Canceled)
+	case 2:
+		return context.DeadlineExceeded
+	case 3:
+		return context.Canceled
+	}
+	return fmt.Errorf("scripted failure on ledger %s", l.name)
 }
 
 func (l *ledger) enter(method string, same bool) error {
@@ -111,7 +126,7 @@ func (l *ledger) enter(method string, same bool) error {
 	c.Err = l.fail
 	l.h.mu.Unlock()
 	if l.fail {
-		return fmt.Errorf("scripted failure on ledger %s", l.name)
+		return l.failure()
 	}
 	return nil
 }
@@ -138,6 +153,7 @@ type caseDesc struct {
 	Assets     []string `json:"asset_ledgers"`
 	Registered []string `json:"registered"`
 	Failing    []string `json:"failing"`
+	ErrKind    int      `json:"error_kind_of_failing_sub_calls"` // 0 plain, 1 wrapping context.Canceled, 2 DeadlineExceeded, 3 context.Canceled
 	Order      []string `json:"completion_order"`
 	Method     string   `json:"method"`
 	Egoistic   int      `json:"egoistic_index"` // -1: none
@@ -289,6 +305,9 @@ func assetList(em *childrun.Emitter, rng *rand.Rand, budget int, sample bool) in
 						continue
 					}
 					c := caseDesc{Assets: names, Registered: reg, Failing: failing, Order: ord, Method: me.m, Egoistic: me.ego}
+					if len(failing) > 0 {
+						c.ErrKind = rng.Intn(4)
+					}
 					oneCase(em, assets, distinct, c)
 					executed++
 					if sample && executed == 5 {
@@ -325,7 +344,7 @@ func oneCase(em *childrun.Emitter, assets []channel.Asset, distinct []string, c 
 		byName[l.String()] = l
 	}
 	for _, name := range c.Registered {
-		l := &ledger{h: h, name: name, fail: contains(c.Failing, name), want: state}
+		l := &ledger{h: h, name: name, fail: contains(c.Failing, name), kind: c.ErrKind, want: state}
 		adj.RegisterAdjudicator(byName[name], l)
 		fnd.RegisterFunder(byName[name], l)
 	}
